@@ -59,6 +59,16 @@ def flat_case(outer, inners, take, sched):
     return {"scn": scn, "kind": "flat_map", "scripts": [inners[x % len(inners)] for x in outer], "take": take, "sched": sched, "src": "cold"}
 
 
+def flat_merge_case(inners, take, sched):
+    # the OUTER items arrive from two threads at once (merge does not serialise): inner observers are registered concurrently
+    pipe = ["op", "flat_map", [["mod"]], ["op", "merge", [], ["hot", 0], ["hot", 1]]] + [cold(s) for s in inners]
+    if take is not None:
+        pipe = ["op", "take", [take], pipe]
+    threads = [["a", ["next", 0, 0], ["complete", 0]], ["b", ["next", 1, 1], ["complete", 1]]]
+    scn = ["conc", ["objects", ["subject", "subject"], ["subject", "subject"], ["pipe", pipe]], ["init", ["sub", 0, 0]], ["threads"] + threads, ["fini"], ["sched"] + sched]
+    return {"scn": scn, "kind": "flat_map", "scripts": [inners[0], inners[1]], "take": take, "sched": sched, "src": "cold"}
+
+
 def generate(rng, tier, seed):
     thorough = tier == "thorough"
     cases = []
@@ -86,6 +96,8 @@ def generate(rng, tier, seed):
         inners = scripts_for(rng, 2, 3)
         outer = rng.choice([[0, 1], [1, 0], [0, 1, 0]])
         cases.append(flat_case(outer, inners, rng.choice([None, None, 2]), ["random", base, 40 if thorough else 15]))
+        cases.append(flat_merge_case(scripts_for(rng, 2, 3), None, ["random", base, 60 if thorough else 25]))
+        cases.append(flat_merge_case(scripts_for(rng, 2, 3), None, ["pct", 3, base, 30 if thorough else 12]))
     return cases
 
 
